@@ -1,10 +1,17 @@
 import CelmaVerif.Props.C06
 /-
   C04 for the fixed-size container destinations (`T[N]`, `std::array<T,N>`, `std::bitset<N>`, tuple) of
-  `typed_arg.hpp`, one of C04's anchored files: evaluation performs no store outside the destination, for every
-  value list, option set and cut into uses.  The model is the container component's (Model/Containers.lean: every
-  store into the slots / bits is a checked write, `oob` = outside); it is tied to the real `Handler` by the
-  containers harness (ASan + UBSan), which this property runs too.
+  `typed_arg.hpp`, one of C04's anchored files.
+
+  SCOPE, honestly: this is a SECOND COMPONENT MODEL (Model/Containers.lean: `arrRunP`, `bitRunP`, `TupState.put`),
+  NOT composed with the handler model — `Kind` of Model/ProgArgs/Handler.lean has no container destination, so
+  nothing here is a statement about `evalArguments` / `evalArgumentsT`; the link to the real `Handler` is the
+  containers harness (ASan + UBSan), which this property runs too ("second plugin").
+  * `C04_array_store_in_bounds` is a real invariant (whole run, every list of uses, checked writes: `oob` =
+    a store outside the N slots), `C04_array_full_refuses` the refusal at a full array.
+  * `C04_bitset_store_in_bounds` and `C04_tuple_put_in_bounds` are NEAR-DEFINITIONAL (see their docstrings): the
+    model functions have no reachable out-of-bounds branch by their syntax; what they contribute is that the
+    model's guard is the one the harness validates against the real code, not a proof about stores.
 -/
 namespace CelmaVerif.Props.C04c
 open CelmaVerif CelmaVerif.Containers
@@ -44,7 +51,10 @@ theorem bitAssignP_safe (o : Opts) (s : BitState) (u : List Char) :
   unfold bitAssignP
   exact ⟨he.1, by show (bitElems o _ _).1.length = _; rw [he.2, hlen]⟩
 
-/-- **Bitsets.**  For every list of uses: no store outside the N bits, N never changes. -/
+/-- **Bitsets** — NEAR-DEFINITIONAL: `bitStep` is `if pos ≥ n then throw runtime_error else if pos < n then set
+    else oob`; its `oob` branch is dead by syntax, so "no `oob`" holds by the shape of the model (the guard
+    `pos >= N` mirrors `TypedArg< std::bitset<N>>::assign`, validated by the containers harness; the whole-run
+    statement with the exact state is `C06_bitset_outside`).  Content: N never changes over any list of uses. -/
 theorem C04_bitset_store_in_bounds (o : Opts) : ∀ (uses : List (List Char)) (s : BitState),
     (∀ x, (bitRunP o s uses).2 ≠ some (.oob x)) ∧ (bitRunP o s uses).1.bits.length = s.bits.length
   | [], s => by simp [bitRunP]
@@ -59,7 +69,9 @@ theorem C04_bitset_store_in_bounds (o : Opts) : ∀ (uses : List (List Char)) (s
       exact ⟨ih.1, by rw [ih.2]; exact ha.2⟩
     | some r => exact ⟨ha.1, ha.2⟩
 
-/-- **Tuples.**  A value for a position behind the last element is refused without a store. -/
+/-- **Tuples** — NEAR-DEFINITIONAL, one step: the `| _ =>` arm of `TupState.put` (by `rfl`); `put` has no `oob`
+    result at all (the tuple is three named fields in the model), so no "store outside" is expressible.  A value
+    for a position behind the last element is refused with `std::out_of_range` and the state is not changed. -/
 theorem C04_tuple_put_in_bounds (s : TupState) (t : List Char) (h : s.numSet ≥ tupLen) :
     s.put t = .throw .out_of_range := tup_put_outside s t h
 
